@@ -333,7 +333,7 @@ def check_C17(work, prop, tier, seed, t0):
 def check_C18(work, prop, tier, seed, t0):
     q = tier == "quick"
     model_runs = [env_model(work)]
-    vts = ["int", "string", "ptr", "bytes", "zero", "big", "rich"]
+    vts = ["int", "string", "ptr", "bytes", "zero", "big", "rich", "tail"]
     kinds = [("alpha/string", "random"), ("uint32", "random"), ("float64", "random"), ("collation/string/und", "text"), ("compound/u8+str", "tuple"),
              ("alpha/bytes", "vlong"), ("collation/bytes/und", "text"),
              # sort keys beyond the collator buffer's 4 KiB inline array: the stored copy must be the tree's own
@@ -344,7 +344,7 @@ def check_C18(work, prop, tier, seed, t0):
     jobs = []
     for i, (k, u) in enumerate(kinds):
         for j, vt in enumerate(vts):
-            if q and (i + j) % 2 == 1 and vt not in ("ptr", "rich"):
+            if q and (i + j) % 2 == 1 and vt not in ("ptr", "rich", "tail"):
                 continue
             # strings of 1000+ characters: every dump carries sort keys of several KiB, so these histories stay short and few
             if u == "textlong" and vt not in ("ptr", "string"):
@@ -353,7 +353,7 @@ def check_C18(work, prop, tier, seed, t0):
             jobs.append(Job("gc:%s:%s" % (k, vt), "checkptr", ["gc", "-kind", k, "-u", u, "-vt", vt, "-seed", str(seed), "-n", str(n),
                                                                "-len", str(ln)], env={"GOGC": "1"}))
     return env_check(work, prop, tier, seed, t0, jobs, TREE_INVS, model_runs,
-                     "value-type matrix (int, string, *struct, []byte, zero-size, 200-byte struct, struct with pointers) x tree kinds; GC percent 1, "
+                     "value-type matrix (int, string, *struct, []byte, zero-size, 200-byte struct, struct with pointers, struct whose first word is constant) x tree kinds; GC percent 1, "
                      "forced collections between operations, garbage pressure, checkptr instrumentation; every stored key and value deep-compared "
                      "through the id it was made from; a runtime fault (bad pointer, checkptr) is a verdict",
                      ["collector timing is sampled by forced and pressure-driven collections, not enumerated"], level="exploration")
